@@ -24,6 +24,10 @@ fn lib_b64_encode(b: &[u8]) -> String {
     KeyText::<V4, Local>::from_raw_bytes(b).to_string()["k4.local.".len()..].to_string()
 }
 
+pub fn b64_check_pub(prefix: &str, tail: &str) -> R {
+    b64_check(prefix, tail)
+}
+
 fn b64_check(prefix: &str, tail: &str) -> R {
     let s = format!("{prefix}{tail}");
     let lib = lib_b64_decode(&s);
